@@ -106,6 +106,12 @@ def _gen_isect_vs_subclass(rng):
 def gen_case(rng, params, idx):
     if idx % 16 == 11:
         return _gen_isect_vs_subclass(rng)
+    if idx % 16 in (2, 10):
+        from .c01 import _gen_keyed_group
+        spec = dict(_gen_keyed_group(rng), composite=False)
+        for m in spec["methods"]:
+            m["kind"] = "leaf"
+        return spec
     composite = idx % 4 == 3
     many_literals = idx % 4 == 2
     hier = gen.gen_hierarchy(rng, rng.randint(1, 3), attrs=False)
